@@ -12,6 +12,7 @@ type vReader struct {
 	chunked bool
 	reads   int
 	short   int
+	split   int // > 0: the stream arrives in two pieces, the first of this many bytes
 }
 
 func (s *vReader) Read(p []byte) (int, error) {
@@ -25,6 +26,9 @@ func (s *vReader) Read(p []byte) (int, error) {
 	n := len(s.data) - s.pos
 	if len(p) < n {
 		n = len(p)
+	}
+	if s.split > 0 && s.pos < s.split && s.pos+n > s.split {
+		n = s.split - s.pos
 	}
 	if s.chunked && s.short < 3 && n > 1 {
 		// at most three short (1-byte) reads per stream, at arbitrary positions
@@ -386,4 +390,68 @@ func VH_C14_marshal_packed_roundtrip() {
 			vAssert(s.data[j] == bufs[i][j], "C04.packedframe.segment-bytes")
 		}
 	}
+}
+
+// Packed Encoder -> packed Decoder: one or two frames whose payload words follow the packer's
+// structure masks (all non-zero / all zero / seven leading non-zero bytes), delivered in two pieces
+// split at ANY byte: the decoded segments are the written ones and the stream ends cleanly.
+func VH_C14_stream_packed() {
+	nf := 1 + vConcrete(int(vNondetU8()%2), 2)
+	var bufs [2][]byte
+	var w vBufW
+	enc := NewPackedEncoder(&w)
+	for f := 0; f < nf; f++ {
+		bufs[f] = vNondetBytes(8)
+		mask := byte(0xff)
+		switch vNondetU8() % 3 {
+		case 1:
+			mask = 0x00
+		case 2:
+			mask = 0x7f
+		}
+		for j := 0; j < 8; j++ {
+			if mask&(1<<uint(j)) != 0 {
+				vAssume(bufs[f][j] != 0)
+			} else {
+				vAssume(bufs[f][j] == 0)
+				bufs[f][j] = 0
+			}
+		}
+		m := &Message{Arena: SingleSegment(bufs[f])}
+		eerr := enc.Encode(m)
+		vAssert(eerr == nil, "C04.packedstream.encode-ok")
+		if eerr != nil {
+			return
+		}
+	}
+	stream := w.b
+	k := vNondetInt()
+	vAssume(k >= 0 && k <= len(stream))
+	k = vConcrete(k, len(stream)+1)
+	vReach("encoded")
+	d := NewPackedDecoder(&vReader{data: stream, split: k})
+	for f := 0; f < nf; f++ {
+		g, err := d.Decode()
+		vAssert(err == nil, "C04.packedstream.frame-decoded")
+		if err != nil {
+			return
+		}
+		s, err := g.Segment(0)
+		vAssert(err == nil && g.NumSegments() == 1 && len(s.data) == 8, "C04.packedstream.segment-shape")
+		if err != nil || len(s.data) != 8 {
+			return
+		}
+		j := vNondetInt()
+		vAssume(j >= 0 && j < 8)
+		vAssert(s.data[j] == bufs[f][j], "C04.packedstream.segment-bytes")
+	}
+	_, err := d.Decode()
+	vAssert(err == io.EOF, "C04.packedstream.clean-end-of-stream")
+}
+
+type vBufW struct{ b []byte }
+
+func (w *vBufW) Write(p []byte) (int, error) {
+	w.b = append(w.b, p...)
+	return len(p), nil
 }
